@@ -283,6 +283,5 @@ func checkTerminalTimeParity(c *Ctx, rule string) {
 			fmt.Sprintf("a lease released inside %s is stamped from %s by the memory store (%s) but from %s by SQLite (%s): after the same calls the backends list different next_run_at values, report different ready lag and offer the message at different instants", r, desc(md, mn), mm[md], desc(sd, sn), ss[sd && !md || sd]))
 	}
 	c.Floor(rule, "operations that can release a lease, compared", len(roots), 3)
-	c.Check(a == b && a != "", rule, "Store:leased→queued:next_run_at(memory=sqlite)", "", "both backends stamp a released lease with {"+b+"}",
-		fmt.Sprintf("a lease that is released is stamped with {%s} by the memory store but with {%s} by SQLite (%s): after the same calls the two backends list different next_run_at values and offer the message at different instants", a, b, strings.Join(where, "; ")))
+	_, _, _ = a, b, where // the aggregated comparison was dropped: it needs the nack stamp in the block of the state store, which a closure-based settle helper does not give (false alarms on benign refactorings); the per-operation comparison above decides the clause
 }
